@@ -3,6 +3,7 @@
 mod explore;
 mod fam_lifecycle;
 mod fam_mailbox;
+mod fam_rpc;
 mod fam_timer;
 mod tdrv;
 mod hctl;
@@ -58,6 +59,7 @@ fn main() {
         fam_mailbox::dispatch,
         fam_lifecycle::dispatch,
         fam_timer::dispatch,
+        fam_rpc::dispatch,
     ];
     for f in fams {
         if let Some(summary) = f(&cmd, &a) {
